@@ -124,6 +124,12 @@ class G(object):
             spec["str_bools"] = True
         if self.rl.chance(0.2):
             spec["bool_backend"] = True
+        # deployment knob (own stream, so that the other layouts stay what they were): the IdP rolls its signing
+        # certificate for every signed answer (generate_cert_info + tmp_cert_file/tmp_key_file, the PEFIM set-up);
+        # create_authn_response() then builds the answer on its locked branch.  The roller is the documented
+        # cert_handler_extra_class seam and hands out the configured pair again, so trust is what it was.
+        if "rolling_cert" not in spec and mkrng(self.seed, "rolling", spec["name"]).chance(0.3):
+            spec["rolling_cert"] = True
         self.nodes.append(spec)
         return spec
 
